@@ -7,43 +7,11 @@ From V.C03 Require Import Model Glue.
 Import ListNotations.
 Open Scope N_scope.
 
-Definition run_c03 (l : list N) : list N :=
-  match decode_case l with
-  | Some (Case0 c) =>
-      let '(s, status) := run_sys (run_fuel l) (c_sched c) false 0 (sys_init c) in
-      trace0 s status
-  | Some (Case3 side lazy ns rs input pay) =>
-      let '(s, status) := run_sys (run_fuel l) [] (negb side) 0 (sys_alone side lazy ns rs input pay) in
-      trace0 s status
-  | Some (Case1 h ls pl) => trace1 (webrtc_listener (tag_from 0 ls) pl h)
-  | Some (Case2 p fs ops) =>
-      match propose_msg p true with
-      | Some m => [1; 0] ++ enc_bytes m ++ run_wops ops p fs false
-      | None => [1; 1]
-      end
-  | None => [0]
-  end.
-
-Definition ok_c03 (case trace : list N) : bool :=
-  match decode_case case, trace with
-  | Some (Case0 c), 1 :: body =>
-      match pall p_obs0 body with
-      | Some o => ok0 c o
-      | None => false
-      end
-  | Some (Case3 side lazy ns rs input pay), 1 :: body =>
-      match pall p_obs0 body with
-      | Some o => ok3 side lazy ns input o
-      | None => false
-      end
-  | Some (Case1 h ls pl), 1 :: body => ok1 ls pl body
-  | Some (Case2 p fs ops), 1 :: body =>
-      match body with 0 :: _ => true | 1 :: _ => true | _ => false end
-  | None, [0] => true
-  | _, _ => false
-  end.
-
-Lemma run_c03_in_sync : run_c03 = run_case.
+(* the other property's own composition, used as is (ocaml/build_model.sh aliases the requested
+   names after monolithic extraction, so no copy is needed any more) *)
+Definition run_c03 : list N -> list N := V.C03.Glue.run_case.
+Definition ok_c03 : list N -> list N -> bool := V.C03.Glue.prop_ok.
+Lemma run_c03_in_sync : run_c03 = V.C03.Glue.run_case.
 Proof. reflexivity. Qed.
-Lemma ok_c03_in_sync : ok_c03 = prop_ok.
+Lemma ok_c03_in_sync : ok_c03 = V.C03.Glue.prop_ok.
 Proof. reflexivity. Qed.
